@@ -425,7 +425,8 @@ def run_bfs(case):
     finally:
         shutil.rmtree(root, ignore_errors=True)
     r = ok()
-    r.update(evals=n, distinct=n, states=[digest((seedkind, s)) for s in states], transitions=transitions, validated=n)
+    r.update(evals=n, distinct=n, states=[digest((seedkind, s)) for s in states], transitions=transitions, validated=n,
+             outcome_list=[digest(('model-state', s)) for s in states])
     return r
 
 
